@@ -60,9 +60,11 @@ Section Packet.
 
   (* radmsg2buf.  Result: Fault if the Message-Authenticator write would leave the buffer,
      Ok None if refused (size), Ok (Some (packet, msg auth after the call)) *)
+  Definition bad_ma (a : tlv) : bool := (tlv_t a =? Consts.RAD_Attr_Message_Authenticator) && negb (tlv_l a =? 16).
   Definition radmsg2buf (m : radmsg) (secret : bytes) : res (option (bytes * bytes)) :=
     let size := 20 + attrs_size (m_attrs m) in
     if Consts.RADMSG2BUF_MAX <? size then Ok None
+    else if existsb bad_ma (m_attrs m) then Ok None      (* a Message-Authenticator that is not 16 octets is not signed: no packet *)
     else
       let buf0 := radius_header (m_code m) (m_id m) size (m_auth m) ++ concat (map tlv2buf (m_attrs m)) in
       let r1 :=
